@@ -158,11 +158,13 @@ class BaseExtractor:
                 subquery_flag = False
                 alias = None
                 if len(all_segments) > 1 and all_segments[1].type == "alias_expression":
-                    all_segments = list_child_segments(all_segments[1])
+                    alias_segment = all_segments[1]
+                    all_segments = list_child_segments(alias_segment)
                     alias = str(
                         all_segments[1].raw
                         if len(all_segments) > 1
-                        else all_segments[0].raw
+                        # exasol lexes [x] as one symbol, such an alias has no identifier child, keep its text
+                        else (all_segments[0] if all_segments else alias_segment).raw
                     )
                 if "." not in table_identifier.raw:
                     cte_dict = {s.alias: s for s in holder.cte}
